@@ -13,6 +13,7 @@ import (
 
 	"seehuhn.de/go/geom/matrix"
 	"seehuhn.de/go/postscript/funit"
+	"seehuhn.de/go/postscript/psenc"
 	"seehuhn.de/go/postscript/type1"
 )
 
@@ -37,6 +38,9 @@ func genGlyphName(rng *rand.Rand, i int) string {
 	case 0:
 		// bytes >= 0x80 and unusual regular characters
 		n := 1 + rng.IntN(6)
+		if rng.IntN(8) == 0 {
+			n = []int{100, 126, 127, 128, 129, 200, 255, 256, 257, 400}[rng.IntN(10)] // names have no length limit in a font file
+		}
 		b := make([]byte, n)
 		for j := range b {
 			for {
@@ -186,6 +190,30 @@ func genGlyph(rng *rand.Rand, o *fontOpts) *type1.Glyph {
 		a := funit.Int16(rng.IntN(2001) - 1000)
 		g.VStem = append(g.VStem, a, a+funit.Int16(rng.IntN(200)-20))
 	}
+	if rng.IntN(12) == 0 {
+		// three stems that qualify as a stem3 triple (equal outer widths, equally
+		// spaced centres), with or without other stems before and after them
+		a := funit.Int16(rng.IntN(600) - 300)
+		w1, w2, d := funit.Int16(10+rng.IntN(60)), funit.Int16(10+rng.IntN(80)), funit.Int16(100+rng.IntN(100))
+		triple := []funit.Int16{a, a + w1, a + d + (w1-w2)/2, a + d + (w1-w2)/2 + w2, a + 2*d, a + 2*d + w1}
+		var list []funit.Int16
+		if rng.IntN(2) == 0 {
+			list = append(list, a-200, a-180)
+		}
+		list = append(list, triple...)
+		if rng.IntN(3) == 0 {
+			list = append(list, triple[0]+1000, triple[1]+1000, triple[2]+1000, triple[3]+1000, triple[4]+1000, triple[5]+1000)
+		}
+		if rng.IntN(3) == 0 {
+			list = append(list, a+900, a+930)
+		}
+		if rng.IntN(2) == 0 {
+			g.HStem = list
+		} else {
+			g.VStem = list
+		}
+		o.f("stems forming a stem3 triple")
+	}
 	if rng.IntN(40) == 0 {
 		g.HStem = append(g.HStem, -32768, 32767, 32767, -32768)
 		o.f("extreme stem values")
@@ -231,6 +259,16 @@ func genInfoString(rng *rand.Rand, o *fontOpts) string {
 		}
 	}
 	o.f("info string over all bytes")
+	if rng.IntN(8) == 0 {
+		// text that looks like parts of a font program: anything that locates
+		// the sections of the file by searching for such text is misled
+		frag := []string{"\ncurrentfile eexec\n", "currentfile eexec\r", "\ncleartomark\n", "%!PS-AdobeFont-1.0: X 1.0\n", "\n%%CreationDate: Mon Jan 2 15:04:05 2006\n",
+			"mark currentfile closefile\n", "\n/Private 10 dict dup begin\n", "dup /FontName get exch definefont pop\n", "\n/CharStrings 1 dict dup begin\n", "\nend\n",
+			"0000000000000000000000000000000000000000000000000000000000000000\n", "\x80\x03", "\x80\x01\x05\x00\x00\x00", "/Encoding StandardEncoding def\n"}[rng.IntN(14)]
+		pos := rng.IntN(len(b) + 1)
+		o.f("info string holding font-program text")
+		return string(b[:pos]) + frag + string(b[pos:])
+	}
 	return string(b)
 }
 
@@ -348,6 +386,11 @@ func genFont(rng *rand.Rand, o *fontOpts) *type1.Font {
 	case 1:
 		f.Encoding = append([]string(nil), std...)
 		o.f("encoding = StandardEncoding")
+		if rng.IntN(2) == 0 {
+			// the customary way of saying so: a slice of the package's table
+			f.Encoding = psenc.StandardEncoding[:]
+			o.f("encoding = psenc.StandardEncoding[:]")
+		}
 	case 2:
 		// a subset of StandardEncoding: .notdef on codes whose standard glyph exists in the font
 		f.Encoding = append([]string(nil), std...)
